@@ -95,7 +95,7 @@ fn full_cmd(g: &mut Gen) -> (String, Command) {
                 ("return redis.call('GET', KEYS[1])", 1), ("return redis.call('INCR', KEYS[1])", 1), ("return redis.call('LPUSH', KEYS[1], 'x')", 1),
                 ("return redis.call('HINCRBY', KEYS[1], 'f', 1)", 1), ("return redis.pcall('INCR', KEYS[1])", 1), ("return redis.call('RPOPLPUSH', KEYS[1], KEYS[2])", 2),
                 ("return redis.call('NOSUCH')", 0), ("return 1 +", 0), ("error('boom')", 0), ("return redis.call('ZADD', KEYS[1], 'XX', 1, 'q')", 1),
-                ("return redis.call('SETRANGE', KEYS[1], 536870912, 'x')", 1), ("return redis.call('MSET', KEYS[1], 'v', KEYS[2])", 2)]);
+                ("return redis.call('SETRANGE', KEYS[1], 536870912, 'x')", 1), ("redis.call('SET', KEYS[1], 'v'); return redis.call('INCR', KEYS[2])", 2), ("return redis.call('MSET', KEYS[1], 'v', KEYS[2])", 2)]);
               Command::Eval { script: script.to_string(), keys: (0..nk).map(|_| k(g)).collect(), args: vec![] } }
         _ => g.pick(&[Command::ScriptLoad("return 1".into()), Command::ScriptExists(vec!["abc".into()]), Command::ScriptFlush,
                       Command::EvalSha { sha1: "ffffffffffffffffffffffffffffffffffffffff".into(), keys: vec![], args: vec![] }]),
@@ -181,6 +181,7 @@ fn main() {
             for (n, t) in trace.iter().enumerate() { println!("  A{}: {}", n, t); }
             println!("case {} part B ({} steps, full command set):", i, traceb.len());
             for (n, t) in traceb.iter().enumerate() { println!("  B{}: {}", n, t); }
+            explain_with_model(&args.out, HEADER, &term);
         }
     }
     out.finish(args.seed);
